@@ -75,6 +75,55 @@ type VU = Vec<u64>;
 dbus_variant_sig!(MS, CaseU => u32; CaseS => String; CaseT => T2; CaseV => VU);
 dbus_variant_var!(MV, CaseU => u32; CaseS => String; CaseT => (u8, u64));
 
+/// enums whose known case CONTAINS variants: the nesting budget of a known case becomes observable
+type VMS = Vec<MS>;
+#[derive(DMarshal, DUnmarshal, DSignature, Debug, PartialEq)]
+enum E3 {
+    W(VMS),
+}
+dbus_variant_sig!(MD, CaseW => VMS);
+
+/// a known case holding a tower of variants that reaches the 64-level limit from below and from above: the enum's own variant
+/// level, the array and the `k` variants of the tower all count (2 + k <= 64), exactly as for the generic variant decoder
+fn enum_depth(out: &mut Out) {
+    for bo in ORDERS {
+        for k in 56..=68usize {
+            let mut tower = Vec::new();
+            for _ in 1..k {
+                tower.extend_from_slice(&[1, b'v', 0]);
+            }
+            tower.extend_from_slice(&[1, b'y', 0, 7]);
+            let mut buf = vec![2, b'a', b'v', 0];
+            let len = tower.len() as u32;
+            buf.extend_from_slice(&if bo == ByteOrder::LittleEndian { len.to_le_bytes() } else { len.to_be_bytes() });
+            buf.extend_from_slice(&tower);
+            buf.push(0x5A);
+            let mut val = Val::Variant(Ty::Base('y'), Box::new(Val::Num(7)));
+            for _ in 1..k {
+                val = Val::Variant(Ty::Variant, Box::new(val));
+            }
+            let ty = Ty::Array(Box::new(Ty::Variant));
+            let shown = Val::Arr(vec![val]).canon(&ty).show();
+            let want_ok = 2 + k <= 64;
+            for (kind, name) in [("derive", "derived enum"), ("catchall", "dbus_variant_sig enum")] {
+                let req = format!("c16.enum {} {} av 0 {}", kind, bo_name(bo), hex(&buf));
+                let r = guard(|| if kind == "derive" { decode_at::<E3>(&buf, bo, 0).map(|x| x.1) } else { decode_at::<MD>(&buf, bo, 0).map(|x| x.1) });
+                let obs = match &r {
+                    Ok(Ok(n)) => format!("case 0 {} used={}", shown, n),
+                    Ok(Err(())) => "err".to_string(),
+                    Err(p) => format!("panic {}", p),
+                };
+                let got_ok = matches!(r, Ok(Ok(_)));
+                if got_ok != want_ok {
+                    out.violation(&req, &format!("{}: a known case nested {} levels deep in all (variant + array + {} variants) is {}", name, 2 + k, k, if got_ok { "accepted" } else { "refused" }));
+                }
+                out.hit(if want_ok { "enum_known_case_deep_ok" } else { "enum_known_case_too_deep" });
+                out.case(&req, &obs, true);
+            }
+        }
+    }
+}
+
 fn marshal_at<M: Marshal>(v: &M, bo: ByteOrder, phase: usize) -> Option<Vec<u8>> {
     let mut buf = vec![0u8; phase];
     let mut fds = Vec::new();
@@ -636,6 +685,7 @@ pub fn run(cfg: &Cfg) {
     run_has_sig(&mut out, &mut rng, if cfg.thorough { 60 } else { 8 });
     run_conversions(&mut out);
     let _ = (ObjectPath::new("/").is_ok(), SignatureWrapper::new("").is_ok());
+    enum_depth(&mut out);
     // the dynamic API against itself and the validator on hand-built Param trees: borrowed / owned string-likes at every
     // alignment phase, the deepest legal values (what the Param API writes, the validator accepts and the Param API reads
     // back as the same value), ill-typed trees refused
